@@ -137,7 +137,9 @@ flush_send_buf = Spec(
         ('flushed-all-the-window-allows',
          lambda c: z3.Or(z3.Length(c.new('_send_buf')) == 0, c.new('_send_window') == 0)),
         ('nothing-lost-or-duplicated',
-         lambda c: z3.Or(len(c.events('close_send')) == 1,
+         # (a pending close discards what is still buffered: that is what close() asks for)
+         lambda c: z3.Or(z3.And(c.old('_send_state') == z3.StringVal('close_pending'),
+                                c.new('_send_state') == z3.StringVal('closed')),
                          conservation(c, c.old('ghost_emitted'), c.old('_send_buf')))),
         ('class-inv', lambda c: send_inv(c)),
     ])
